@@ -338,7 +338,8 @@ def valgrind_step(run, binaries, scale):
 def c20(run):
     import concurrent.futures as cf, threading
     quick = run.tier == 'quick'
-    scale = 0.15 if quick else 2.0
+    # thorough: 50 % of the quick counts per instance (cap 60 000) - under ASan every remembered case costs ~200 bytes, a shard of the relation engine at 200 % needed 11 GB
+    scale = 0.15 if quick else 0.5
     names = [b for b, _ in ENGINE_BINARIES]
     exes = D.build_or_violation(run, names, 's')
     exes_n = D.build_or_violation(run, ['introspect'], 'n')
@@ -350,11 +351,11 @@ def c20(run):
         def one(job):
             b, k, n = job
             sub = D.Run(run.prop, 'quick')
-            env = {'VERIF_FACTORS': fa, 'VERIF_SKIP': SAN_SKIP, 'VERIF_MAXN': '20000' if quick else '200000'}
+            env = {'VERIF_FACTORS': fa, 'VERIF_SKIP': SAN_SKIP, 'VERIF_MAXN': '20000' if quick else '60000'}
             if n > 1: env['VERIF_SHARD'] = '%d/%d' % (k, n)
             D.run_engine(sub, b, exes[b], [], flavour='s', scale=scale, extra_env=env, tag='.%s%d' % (b, k))
             return sub
-        with cf.ThreadPoolExecutor(max_workers=12) as ex:
+        with cf.ThreadPoolExecutor(max_workers=12 if quick else 8) as ex:
             for sub in ex.map(one, jobs):
                 run.evaluations += sub.evaluations; run.nontrivial += sub.nontrivial
                 for k, v in sub.classes.items(): run.classes[k] = run.classes.get(k, 0) + v
@@ -373,7 +374,7 @@ def c20(run):
         def onec(job):
             b, k, n = job
             sub = D.Run(run.prop, 'quick')
-            env = {'VERIF_FACTORS': fa, 'VERIF_SKIP': SAN_SKIP, 'VERIF_MAXN': '20000' if quick else '200000'}
+            env = {'VERIF_FACTORS': fa, 'VERIF_SKIP': SAN_SKIP, 'VERIF_MAXN': '20000' if quick else '60000'}
             if n > 1: env['VERIF_SHARD'] = '%d/%d' % (k, n)
             D.run_engine(sub, b, exes_c[b], [], flavour='c', scale=0.25 if quick else 2.0, extra_env=env, tag='.c%s%d' % (b, k))
             return sub
